@@ -125,8 +125,13 @@ func (w *rw) stop() {
 		}
 	}
 	s.waitLock.RUnlock()
-	close(s.validateCh)
-	close(s.finalizeCh)
+	// a retry timer of an object that is neither cached nor on the wait list any more cannot be
+	// reached from here: if it fires later it finds fresh buffered channels, not closed ones
+	oldV, oldF := s.validateCh, s.finalizeCh
+	s.validateCh = make(chan *finalFile, 4096)
+	s.finalizeCh = make(chan *finalFile, 4096)
+	close(oldV)
+	close(oldF)
 	w.lg.VerifClose()
 	synctest.Wait()
 }
@@ -251,7 +256,16 @@ func (w *rw) dump() string {
 	for _, k := range keys {
 		var names []string
 		for _, f := range s.wait[k] {
-			names = append(names, f.name)
+			// which object waits matters: only the one that is current in the cache is finalized
+			// on release, and an armed retry timer brings an object back on its own
+			n := f.name + ":" + f.hash
+			if s.cache[f.path] != f {
+				n += ":stale"
+			}
+			if f.wait != nil {
+				n += ":timer"
+			}
+			names = append(names, n)
 		}
 		sort.Strings(names)
 		fmt.Fprintf(&b, "W %s <- %v\n", strings.TrimPrefix(k, s.rootDir), names)
